@@ -11,12 +11,12 @@ MANIFEST = dict(
     text=("PARTIAL. Theorems over the Gallina model Model/Scoping.v, for ALL workspaces: after `x.` the labels are exactly the "
           "names whose nearest declaration in the class/module of x and its ancestors is a field, procedure or function, each "
           "name once ignoring case, with the spelling of that declaration (C11_after_dot, from C18's collect = merged, "
-          "merged_each_name_once, merged_nearest, merged_complete); from inside another class the same listing "
-          "(C11_after_dot_other_class), for the enclosing class under the exact guard (C11_after_dot_own_class); elsewhere in "
+          "merged_each_name_once, merged_nearest, merged_complete); from inside any class, the enclosing one included, "
+          "the same listing (C11_after_dot_in_context); elsewhere in "
           "a method body exactly the method's parameters and locals plus the names whose nearest declaration in the class "
           "chain is a constant (C11_plain); an operand of unknown or non-indexed type yields no proposals "
-          "(C11_unknown_type_empty, C11_unindexed_type_empty). Three *_refuted theorems state where /repo departs from the "
-          "wording. The model is tied to /repo by rendering generated workspaces to Gold files and comparing, at every dot "
+          "(C11_unknown_type_empty, C11_unindexed_type_empty). One *_refuted theorem states where /repo departs from the "
+          "wording (forward reference in the operand), one the defect of the step repaired by 945552f. The model is tied to /repo by rendering generated workspaces to Gold files and comparing, at every dot "
           "position (complete name, partial name, dangling `x.` on the line being typed) and every statement start, the sorted "
           "labels of generate_completion_proposals (twice, 10 s watchdog) with the extracted model's; an independent oracle "
           "evaluates the property's wording on the implementation's answers."),
@@ -49,6 +49,7 @@ def nontrivial(line):
 
 def correspondence(ctx, broken_obligations=()):
     S.replay_witnesses(ctx, PID, KINDS)
+    S.replay_regressions(ctx, PID, KINDS)
     cases, hist = S.gen_cases(ctx, KINDS)
     meta = coverage_meta(cases, hist)
     try:
@@ -71,16 +72,15 @@ def coverage_meta(cases, hist):
                    "rendered to one Gold file per entity; one completion request (repeated once) right after EVERY dot (before "
                    "a complete name, at the end of a partial name, after a dangling `x.` at the end of the line being typed) "
                    "and at every statement start, some right-hand-side identifiers and blank body lines; %d requests in all; "
-                   "first the %d witness workspaces of the refuted clauses; non-trivial = some request after a dot whose "
-                   "operand's class has ancestors and members" % (len(cases) - len(S.DEVS_OF[PID]), nq, len(S.DEVS_OF[PID])))
+                   "first the %d witness workspaces of the refuted clauses and of the repaired defects (regression cases); non-trivial = some request after a dot whose "
+                   "operand's class has ancestors and members" % (len(cases) - len(S.DEVS_OF[PID]) - len(S.REGRESSIONS[PID]), nq, len(S.DEVS_OF[PID]) + len(S.REGRESSIONS[PID])))
     cov["input_histogram"] = {"X after a dot": hist.get("X", 0), "L elsewhere in a method body": hist.get("L", 0)}
     cov["samples"] = [S.describe(cases[0]), S.describe(cases[len(cases) // 2])]
     cov["refuted_or_partial"] = [
         "partial: scoping core proved on abstract workspaces; rendering, parser, annotated tree, position -> node validated by the differential run",
         "class %s reaches completion through declared type names found via `uses` (C10_plain_refuted_uses)" % S.DEV_USES,
-        "C11_after_dot_refuted_local (class %s)" % S.DEV_OWN,
         "C11_operand_type_refuted_forward (class %s)" % S.DEV_FWD,
-        "C11_operand_type_refuted_module_call (class %s)" % S.DEV_MODCALL,
+        "C11_old_after_dot_refuted_local (the step before fix 945552f; regression case %s)" % S.FIX_OWN,
     ]
     return cov
 
